@@ -194,6 +194,52 @@ def _rows_after_solve(T, n, reduce, extra):
     return True
 
 
+def _table_reads_plain(T, ops):
+    # the table of a Model's solver after a history of reads through Model.GetTimeSeries (series x / d / k, time zero suppressed or not, no cut-off /
+    # cut-off argument / cut-off attribute): still T+1 data rows under the same header, every cell as straight after the solve
+    from sfc_models.models import Model
+    ES.SYM_G = [float(i) for i in range(T + 1)]
+    mod = Model()
+    es = EquationSolver(run_equation_reduction=True)
+    es.MaxTime = T
+    es.ParseString(BLK)
+    es.SolveEquation()
+    mod.EquationSolver = es
+    first = es.GenerateCSVtext()
+    if len(first.split(chr(10))) != T + 3:
+        return False
+    for o in ops:
+        mod.TimeSeriesSupressTimeZero = bool(o % 2)
+        name = ('x', 'd', 'k')[(o // 2) % 3]
+        how = o // 6
+        mod.TimeSeriesCutoff = 1 if how == 2 else None
+        r = mod.GetTimeSeries(name, cutoff=1) if how == 1 else mod.GetTimeSeries(name)
+        r.append(77.)
+        if es.GenerateCSVtext() != first:
+            return False
+    return True
+
+
+def reach_table_after_model_reads(T: int, ops: List[int]) -> bool:
+    """
+    pre: 1 <= T <= 2
+    pre: 1 <= len(ops) <= 2
+    pre: all(0 <= o <= 17 for o in ops)
+    post: not (_ and T == 2 and len(ops) == 2)
+    """
+    return _table_reads_plain(T, ops)
+
+
+def check_table_after_model_reads(T: int, ops: List[int]) -> bool:
+    """
+    pre: 1 <= T <= 2
+    pre: 1 <= len(ops) <= 2
+    pre: all(0 <= o <= 17 for o in ops)
+    post: _
+    """
+    return _table_reads_plain(T, ops)
+
+
 def reach_rows_after_solve(T: int, n: int) -> bool:
     """
     pre: 0 <= T <= 3
